@@ -536,6 +536,7 @@ pub fn run_random<D: Driver>(opts: &RunOpts) -> Outcome {
             let long = rng.chance(1, 8);
             20 + rng.below(if long { 2000 } else { 300 })
         };
+        let ep_len = ep_len.max(prefix.len() + 40);
         let mut after_terminal = 0;
         ctx.episodes += 1;
         let mut failed = false;
